@@ -71,7 +71,8 @@ def _decision_script(dec):
 def gen(rng, tier):
     cases = []
     versions = [None, b"8", b"12", b"13"]
-    keys = ["absent", "valid", "dup"]
+    # ("a key": the base64 of sixteen octets, RFC 6455 4.1 - an empty value or one that decodes to something else is none)
+    keys = ["absent", "valid", "dup", "empty", "malformed"]
     # the last two: one list on two header lines (RFC 7230 3.2.2)
     conns = [b"Upgrade", b"upgrade", b"keep-alive, Upgrade", b"UPGRADE", b"Upgrade\r\nConnection: keep-alive", b"keep-alive\r\nConnection: upgrade"]
     # (Upgrade is a list as well: the client may offer other protocols beside websocket, on one line or on two)
@@ -203,7 +204,7 @@ def _hs_case(rng, n, ver, key, conn, upg, hv, pr, ex, dec):
                 "apps": apps, "client": client, "reactor": {"kind": "h2", "credit": "auto"}, "truth": truth,
                 "sched": {"seed": rng.randrange(1 << 30)}, "horizon": 50.0}
     extra = []
-    k = KEY if key in ("valid", "dup") else None
+    k = KEY if key in ("valid", "dup") else {"empty": b"", "malformed": b"not-base64-of-16-octets!"}.get(key)
     if key == "dup":
         extra.append((b"Sec-WebSocket-Key", KEY))
     data = ws.handshake(path=path, key=k, version=ver, subprotocols=pr, extensions=ex, extra=extra, upgrade=upg,
